@@ -3,8 +3,8 @@
    direct-call and recorded-trace correspondences of harness/p_c16.py) and coq/model/C16Res.v (resource
    dictionaries of all the streams of a document and the key-preserving part of _use_references). *)
 From Coq Require Import ZArith List Bool.
-Require Import WV.model.C16Stream WV.model.C16Res.
-Require Import WV.proofs.C16_balance WV.proofs.C16_skip WV.proofs.C16_names WV.proofs.C16_res.
+Require Import WV.model.C16Stream WV.model.C16Res WV.model.C16Closure.
+Require Import WV.proofs.C16_balance WV.proofs.C16_skip WV.proofs.C16_names WV.proofs.C16_res WV.proofs.C16_closure.
 Import ListNotations.
 Open Scope Z_scope.
 
@@ -76,3 +76,19 @@ Theorem C16_use_references_keeps_names (d : doc) (calls : list call) (d' : doc) 
     (forall sid n, In n (emitted d' sid) -> defined fin sid n = true).
 Proof. exact (use_references_keeps_names d calls d'). Qed.
 Print Assumptions C16_use_references_keeps_names.
+
+(* Resource closure over the whole document, fonts included: a serializer that registers each local resource in the
+   dictionary of the stream that uses it, registers fonts document-wide (Stream.add_font) and gives every resource
+   dictionary the complete /Font dictionary (build_fonts_dictionary) produces closed content streams, for ALL
+   sequences of uses.  `closed` is the predicate evaluated by closure_judge on the parsed real PDFs. *)
+Theorem C16_registered_resources_give_closure (ops : list sop) :
+  closed (sfinalise (srun ops sdoc0)) = true.
+Proof. exact (registered_resources_give_closure ops). Qed.
+Print Assumptions C16_registered_resources_give_closure.
+
+(* ... and the /Font dictionary has to keep every font a stream selects: leaving one out breaks closure *)
+Theorem C16_dropped_font_breaks_closure (keep : Z -> bool) (d : sdoc) (n : node) (h : Z) :
+  In n (s_nodes d) -> In (FONT, h) (n_uses n) -> ~ In (FONT, h) (n_defs n) -> keep h = false ->
+  closed (finalise_fonts keep d) = false.
+Proof. exact (dropped_font_breaks_closure keep d n h). Qed.
+Print Assumptions C16_dropped_font_breaks_closure.
